@@ -57,7 +57,37 @@ def _self_recursion(I, name: str) -> bool:
     return top == name.split(".")[-1] and not top.startswith("<") and (name == top or name.startswith(("self.", "cls.")))
 
 
+def _tree_concrete(db, chk, cs):
+    """_compute_depth / _compute_height run (recursion followed) on a small concrete tree with a device activity at the bottom and stale values everywhere:
+    root(-1) -> A(0) -> {B(1) -> K(3, GPU), C(2)}.  Afterwards depth = number of ancestors below the root sentinel, height = 0 for the device activity, 1 for a childless host
+    node, else 1 + the tallest child."""
+    GPU, CPU = ("enum", "DeviceType", "GPU"), ("enum", "DeviceType", "CPU")
+    spec = {-1: (-2, [0], CPU), 0: (-1, [1, 2], CPU), 1: (0, [3], CPU), 2: (0, [], CPU), 3: (1, [], GPU)}
+    for meth, attr, want, rule in (("_compute_depth", "depth", {-1: -1, 0: 0, 1: 1, 2: 1, 3: 2}, "C13.R1-depth"), ("_compute_height", "height", {0: 2, 1: 1, 2: 1, 3: 0}, "C13.R1-height")):
+        fn = cs.func(f"CallStackGraph.{meth}")
+        state = {}
+
+        def args(I, fn=fn):
+            nodes = {k: _node(f"node{k}", parent=p_, children=list(ch), depth=77, height=77, device=dev) for k, (p_, ch, dev) in spec.items()}
+            state["nodes"] = nodes
+            out = {"self": Obj("self", cls=(cs, "CallStackGraph"), attrs={"nodes": nodes, "root_index": -1})}
+            for p_ in H.param_names(fn)[1:]:
+                out[p_] = None if "root" in p_ else False
+            return out
+        try:
+            runs = [r for r in Interp(db).explore(f"{CS}:CallStackGraph.{meth}", args) if r.raised is None]
+        except AnalysisError:
+            runs = []
+        nodes = state.get("nodes") or {}
+        got = {k: n.attrs.get(attr) for k, n in nodes.items() if k in want}
+        concrete = len(runs) == 1 and not runs[0].path and all(isinstance(v, int) and not isinstance(v, bool) for v in got.values())
+        chk.ob(rule, f"[abstract run] {meth} on a small concrete tree (a device activity below two host levels, stale values before): every node gets its {attr}", (got == want) if concrete else None, cs.loc(fn),
+               found=got if concrete else f"{len(runs)} path(s), values not concrete", accepted=want,
+               why="a walk that does not descend into device activities leaves them with the value they had before the tree was re-linked")
+
+
 def _depth(db, chk, cs):
+    _tree_concrete(db, chk, cs)
     rule = "C13.R1-depth"
     ref = f"{CS}:CallStackGraph._compute_depth"
     fn = cs.func("CallStackGraph._compute_depth")
